@@ -304,6 +304,21 @@ def fixed_sweep(ctx, g, rng, methods, sig):
                         break
                 if mm == 10:
                     break
+            # query ranges spanning half of / the whole address space and more (len() of such a range does not fit a machine word);
+            # section s3 and module m2 extend over more than 2^63 addresses
+            if mm != 10:
+                H, W = 1 << 63, 1 << 64
+                for a, b, st in ((0, W, 1), (0, H, 1), (H, W, 1), (1, H, 1), (0, H - 1, 1), (0, W, 1 << 32), (7, W, 3), (0, W + 5, 1), (H - 1, H + 1, 1), (W - 16, W, 1)):
+                    it = [40, scope, mm, kfs[nq % len(kfs)], a, b, st]
+                    rep = h.emit(it)
+                    nq += 1
+                    ctx.count("fixed_sweep_wide_queries")
+                    bad = world.oracle_query(h.w, it, rep)
+                    if bad:
+                        h.problems.append((len(h.items) - 1, bad))
+                        ctx.add("oracle", "%s:m%d" % (sig, mm), "fixed layout, lookup %s: %s" % (it, "; ".join(bad[:2])), {"items": h.items, "problems": bad[:6]})
+                        ctx.count("fixed_sweep_queries", nq)
+                        return h
     ctx.count("fixed_sweep_queries", nq)
     return h
 
@@ -330,3 +345,126 @@ def lookup_history(ctx, g, rng, length, weights, methods, sig, per_step=3, pool=
                 return h
     judged_queries(ctx, h, rng, methods, 12, sig)
     return h
+
+
+def failed_bulk_scenario(ctx, g, rng, n, sig):
+    """Error paths of the bulk entry points of `symbolic_expressions` (update, whole-mapping assignment, constructor argument): the
+    iterable raises after j pairs, contains a malformed pair, or a key that cannot be ordered against the offsets.  Whatever the call
+    did before it failed, afterwards the mapping is ONE consistent mapping -- len, iteration (ascending), `in`, `[]` agree -- it holds
+    what the built-in dict holds after the same failing call (the pairs before the failure) where the built-in's behaviour is
+    defined, every lookup reports exactly what is stored, and later single-item operations behave as on a fresh mapping."""
+    from common import exc_name
+    for rd in range(n):
+        ir = g.IR()
+        m = g.Module(name="m", ir=ir)
+        sec = g.Section(name="s", module=m)
+        addr = rng.choice([0, 1000, (1 << 40)])
+        bi = g.ByteInterval(size=256, address=addr, section=sec)
+        y = g.Symbol("y", module=m)
+        mk = lambda: g.SymAddrConst(rng.randrange(100), y)  # noqa: E731
+        shadow = {}
+        for k in rng.sample(range(0, 200), rng.choice([0, 1, 3, 12])):
+            e = mk()
+            bi.symbolic_expressions[k] = e
+            shadow[k] = e
+        trail = []
+
+        def consistent():
+            d = bi.symbolic_expressions
+            try:
+                keys = list(d)
+                n_len = len(d)
+                items = list(d.items())
+            except Exception as e:  # noqa: BLE001
+                return "reading the mapping raises %s" % exc_name(g, e)
+            if n_len != len(keys) or [k for k, _ in items] != keys:
+                return "len() is %d, iteration yields %d keys, items() %d pairs" % (n_len, len(keys), len(items))
+            if keys != sorted(keys) or len(set(keys)) != len(keys):
+                return "iteration is not strictly ascending: %s" % keys[:8]
+            for k, v in items:
+                if k not in d or d[k] is not v:
+                    return "key %r is iterated but `in` / [] disagree" % (k,)
+            for k in shadow:
+                if (k in d) != (k in keys):
+                    return "key %r: `in` says %s, iteration %s" % (k, k in d, k in keys)
+            got_o = [(o, id(e)) for _, o, e in bi.symbolic_expressions_at_offset(range(0, 300))]
+            if got_o != [(k, id(v)) for k, v in items if k < 300]:
+                return "symbolic_expressions_at_offset reports offsets %s, the mapping holds %s" % ([o for o, _ in got_o][:8], keys[:8])
+            for scope, nm in ((bi, "interval"), (sec, "section"), (m, "module"), (ir, "IR")):
+                got_a = sorted((o, id(e)) for _, o, e in scope.symbolic_expressions_at(range(addr, addr + 300)))
+                if got_a != [(k, id(v)) for k, v in items if k < 300]:
+                    return "%s.symbolic_expressions_at reports offsets %s, the mapping holds %s" % (nm, [o for o, _ in got_a][:8], keys[:8])
+            return None
+        for step in range(rng.choice([2, 3, 5])):
+            pairs = [(k, mk()) for k in rng.sample(range(0, 200), rng.choice([1, 2, 6, 40]))]
+            j = rng.randrange(len(pairs) + 1)
+            kind = rng.choice(["gen-raises", "bad-pair", "unorderable-key", "ok", "single", "delete"])
+            how = rng.choice(["update", "update", "assign"])
+            defined = True               # is the built-in dict's result after this call defined by the pairs before the failure?
+            if kind == "unorderable-key" and not (j > 0 or (how == "update" and shadow)):
+                kind = "gen-raises"      # a first key of another type is simply stored (nothing to compare it with): outside the domain
+
+            class Boom(Exception):
+                pass
+            if kind == "gen-raises":
+                def arg_f():
+                    for q in pairs[:j]:
+                        yield q
+                    raise Boom()
+                arg = arg_f()
+                prefix = pairs[:j]
+            elif kind == "bad-pair":
+                arg = pairs[:j] + [(7,)] + pairs[j:]
+                prefix = pairs[:j]
+            elif kind == "unorderable-key":
+                arg = pairs[:j] + [(rng.choice(["pad", None, (1, 2)]), mk())] + pairs[j:]
+                prefix, defined = pairs[:j], False
+                if rng.random() < 0.5:
+                    arg = dict(arg)
+            else:
+                arg, prefix = list(pairs), list(pairs)
+            desc = "%s(%s, %d pairs, failing after %d)" % (how, kind, len(pairs), j)
+            try:
+                if kind == "single":
+                    k, e = pairs[0]
+                    bi.symbolic_expressions[k] = e
+                    shadow[k] = e
+                    desc = "[%d] = e" % k
+                elif kind == "delete":
+                    if shadow:
+                        k = rng.choice(sorted(shadow))
+                        del bi.symbolic_expressions[k]
+                        del shadow[k]
+                        desc = "del [%d]" % k
+                elif how == "update":
+                    try:
+                        bi.symbolic_expressions.update(arg)
+                        raised = None
+                    except Exception as e:  # noqa: BLE001
+                        raised = e
+                    shadow.update(prefix)
+                    if kind != "ok" and raised is None and kind != "unorderable-key":
+                        ctx.add("oracle", sig, "%s did not raise" % desc, {"trail": trail + [desc]})
+                else:
+                    try:
+                        bi.symbolic_expressions = arg
+                        raised = None
+                    except Exception as e:  # noqa: BLE001
+                        raised = e
+                    shadow = dict(prefix)          # assignment = clear, then update
+            except Exception as e:  # noqa: BLE001
+                ctx.add("oracle", sig, "after [%s], %s raised %s" % ("; ".join(trail[-3:]), desc, exc_name(g, e)), {"trail": trail + [desc]})
+                break
+            trail.append(desc)
+            ctx.count("failed_bulk_steps:" + kind)
+            bad = consistent()
+            if bad is None and defined:
+                items = list(bi.symbolic_expressions.items())
+                if [(k, id(v)) for k, v in items] != [(k, id(shadow[k])) for k in sorted(shadow)]:
+                    bad = "the mapping holds offsets %s, the built-in dict after the same call %s" % ([k for k, _ in items][:10], sorted(shadow)[:10])
+            if bad is None and not defined:
+                shadow = dict(bi.symbolic_expressions.items())        # undefined for the built-in: take what a consistent mapping holds
+            if bad:
+                ctx.add("oracle", sig, "symbolic_expressions after [%s]: %s" % ("; ".join(trail[-3:]), bad), {"trail": trail})
+                break
+        ctx.case("failed-bulk:%d:%s" % (rd, trail), True)
